@@ -11,7 +11,7 @@
    (physical lines, num_lines, platform set).  A platform set (Python
    frozenset) is a list of names in canonical (sorted, duplicate-free) form;
    a dict is an association list in insertion order. *)
-From Coq Require Import ZArith String Bool Arith List.
+From Coq Require Import ZArith String Ascii Bool Arith List.
 From CBI Require Import Lib.Data Lib.Res.
 Import ListNotations.
 Local Open Scope Z_scope.
@@ -56,27 +56,39 @@ Definition get_setmap (files : list file) : setmap :=
 
 (* ---------------- report.py: summary ---------------- *)
 Definition klen (e : pset * Z) : nat := List.length (fst e).
-(* sorted(keys, key=len) is stable: an element goes before the first one that is not shorter *)
+(* Python's order on str (code points; on the UTF-8 bytes M sees it is the same order) and on lists of str *)
+Fixpoint str_ltb (a b : string) : bool :=
+  match a, b with
+  | EmptyString, String _ _ => true
+  | String x a', String y b' =>
+      (nat_of_ascii x <? nat_of_ascii y)%nat || ((nat_of_ascii x =? nat_of_ascii y)%nat && str_ltb a' b')
+  | _, _ => false
+  end.
+Fixpoint names_ltb (a b : list string) : bool :=
+  match a, b with
+  | [], _ :: _ => true
+  | x :: a', y :: b' => str_ltb x y || (String.eqb x y && names_ltb a' b')
+  | _, _ => false
+  end.
+(* key=lambda s: (len(s), sorted(s)); a platform set is already its sorted list of names *)
+Definition key_ltb (x e : pset * Z) : bool :=
+  (klen x <? klen e)%nat || ((klen x =? klen e)%nat && names_ltb (fst x) (fst e)).
+(* sorted(...) is stable: an element goes before the first one that is not smaller *)
 Fixpoint ins_len (e : pset * Z) (l : setmap) : setmap :=
   match l with
   | [] => [e]
-  | x :: r => if (klen x <? klen e)%nat then x :: ins_len e r else e :: l
+  | x :: r => if key_ltb x e then x :: ins_len e r else e :: l
   end.
 Definition sort_len (m : setmap) : setmap := fold_right ins_len [] m.
 
 (* a row: platform set, count, and the total the percentage is taken of
-   (percent = count / total * 100, formatted by Python) *)
+   (percent = count / total * 100 formatted by Python; NaN when total = 0).
+   summary does not raise: the result type is kept for the driver's encoding. *)
 Record srow := { skey : pset; scount : Z; stotal : Z }.
 Definition summary (m : setmap) : res (list srow * Z) :=
   let total := sm_total m in
-  match m with
-  | [] => Ok ([], 0)
-  | _ =>
-      if total =? 0 then Err "ZeroDivisionError"
-      else
-        let rows := map (fun e => {| skey := fst e; scount := snd e; stotal := total |}) (sort_len m) in
-        Ok (rows, fold_left (fun a r => a + scount r) rows 0)     (* total_count *)
-  end.
+  let rows := map (fun e => {| skey := fst e; scount := snd e; stotal := total |}) (sort_len m) in
+  Ok (rows, fold_left (fun a r => a + scount r) rows 0).     (* total_count *)
 
 (* ---------------- coverage/__main__.py: _compute ---------------- *)
 Record entry := { epath : list string; eid : string; eused : list Z; eunused : list Z }.
